@@ -3,7 +3,7 @@
    the known class. Definitions only. *)
 From Coq Require Import String Ascii.
 From Coq Require Import List Arith Bool.
-Require Import TT.Model.Base TT.Model.Str TT.Model.C07TypeParse TT.Model.Harvest TT.Model.C07Worklist TT.Model.C07Reach.
+Require Import TT.Model.Base TT.Model.Str TT.Model.C07TypeParse TT.Model.C07Harvest TT.Model.C07Worklist TT.Model.C07Reach.
 Require Import TT.Spec.TsLex TT.Spec.TsModule TT.Spec.TsObs TT.Spec.C07Spec.
 Import ListNotations.
 Local Open Scope list_scope.
@@ -76,9 +76,19 @@ Definition o_obs (seen : list str) : orders :=
 (* the defined-name part of the recorded dependencies covers every schema reference *)
 Definition edges_recorded_b (p : project) : bool :=
   forallb (fun n => forallb (fun v => negb (resolvable p v) || smemb v (deps_of p n)) (schema_refs p n)) (dnames p).
-(* known class: a struct field mentions a type under a one-argument Result (an alias): the renderer
-   follows it, the harvester does not record it *)
-Definition kf_c09_result_alias (p : project) : bool := existsb (fun t => kf_result_one_arg (rty_of t)) (field_types p).
+(* the orders of the repaired tool (sort before use): every collection is iterated in the byte order of
+   Rust's String comparison *)
+Fixpoint str_leb (a b : str) : bool :=
+  match a, b with
+  | [], _ => true
+  | _ :: _, [] => false
+  | x :: a', y :: b' => if Nat.ltb (nat_of_ascii x) (nat_of_ascii y) then true
+                        else if Nat.ltb (nat_of_ascii y) (nat_of_ascii x) then false else str_leb a' b'
+  end.
+Fixpoint insert_str (x : str) (l : list str) : list str :=
+  match l with [] => [x] | y :: r => if str_leb x y then x :: l else y :: insert_str x r end.
+Definition sort_str (l : list str) : list str := fold_right insert_str [] l.
+Definition o_sorted : orders := fun _ _ l => sort_str (dedup l).
 
 Record c09obs := { c_structs : list str;                (* X for each constant XSchema that is not a ParamsSchema, in order *)
                    c_refs : list (str * list str);      (* per such X: the Y with YSchema mentioned and declared in the module *)
@@ -95,6 +105,11 @@ Definition observe_zod_order (text : str) : c09obs :=
 
 (* correspondence: the model, run under the orders reconstructed from the output, emits the same list,
    and each schema mentions the declared schemas the model says it mentions *)
+(* since the sort-before-use repair the emitted order is the one of the model under o_sorted *)
+Definition c09_sorted_order (p : project) (ob : c09obs) : bool :=
+  match emitted_zod o_sorted p with
+  | Some out => if list_eq_dec str_dec out (c_structs ob) then true else false
+  | None => false end.
 Definition c09_corr (p : project) (ob : c09obs) : bool :=
   match emitted_zod (o_obs (c_structs ob)) p with
   | Some out =>
